@@ -128,7 +128,12 @@ fn quorum_of(q: u8) -> (Quorum, usize) {
         0 => (Quorum::One, 1),
         1 => (Quorum::Majority, 3),
         2 => (Quorum::All, 5),
-        _ => (Quorum::N(NonZeroUsize::new(2).unwrap()), 2),
+        3 => (Quorum::N(NonZeroUsize::new(2).unwrap()), 2),
+        // N(n) for n = 1..=8: also above the close-group size (records live on CLOSE_GROUP_SIZE + 2 nodes)
+        n => {
+            let n = 1 + (n as usize - 4) % 8;
+            (Quorum::N(NonZeroUsize::new(n).unwrap()), n)
+        }
     }
 }
 
@@ -197,12 +202,15 @@ impl<'a> World<'a> {
                         0 => PadForm::Valid,
                         1 => PadForm::Unsigned,
                         2 => PadForm::ForeignSigner,
-                        _ => PadForm::InflatedCounter,
+                        // the two forged forms alternate with the version index
+                        _ if i % 2 == 0 => PadForm::InflatedCounter,
+                        _ => PadForm::SubstitutedContent,
                     };
                     let pad = data::scratchpad(&owner, &stranger, counter, format!("pad {i}").as_bytes(), form);
                     Version {
                         bytes: data::scratchpad_value(&pad),
-                        kind: VKind::Pad { counter: pad.count(), valid: pad.is_valid() },
+                        // validity by construction, not by asking the code under test
+                        kind: VKind::Pad { counter: pad.count(), valid: form == PadForm::Valid },
                     }
                 }
             };
@@ -386,7 +394,7 @@ impl<'a> World<'a> {
                     let canon = |v: usize| (0..=v).find(|a| self.versions[*a].bytes == self.versions[v].bytes).unwrap_or(v);
                     let delivered_versions: BTreeSet<usize> = delivered.iter().map(|(_, v)| canon(*v as usize)).collect();
                     let mut merge_ok = false;
-                    if !quorum_ok && delivered_versions.len() > 1 {
+                    if delivered_versions.len() > 1 {
                         let is_kind = |k: RecordKind| RecordHeader::from_record(&r).map(|h| h.kind == k).unwrap_or(false);
                         if is_kind(RecordKind::Transaction) {
                             if let Ok(got) = try_deserialize_record::<Vec<Transaction>>(&r) {
@@ -430,7 +438,19 @@ impl<'a> World<'a> {
                             self.rep.probe("ok_by_merge_of_split_versions");
                         }
                     }
-                    if !quorum_ok && !merge_ok {
+                    if quorum_ok && delivered_versions.len() > 1 && !merge_ok {
+                        // enough peers agreed on this version, but other peers had returned differing content
+                        // before the read completed: the caller must get the set / merge, not the pick
+                        self.rep.violate(
+                            "C05",
+                            "one_version_returned_although_peers_differed",
+                            &[],
+                            format!(
+                                "caller {c} (quorum {q_need}) got Ok({cls}) although {} differing versions had been delivered to the read before it completed and the value is not their merge",
+                                delivered_versions.len()
+                            ),
+                        );
+                    } else if !quorum_ok && !merge_ok {
                         let shape = if owner_differs && !first {
                             "attached_to_in_flight_query_of_caller_with_other_cfg"
                         } else {
